@@ -548,7 +548,8 @@ class SoftUpdateReal(Case):
             elif self.variant == "mutation":
                 # directly after a (real) architecture mutation of the whole agent
                 from agilerl.hpo.mutation import Mutations
-                agent = Mutations(0, 1, 0.5, 0, 0, 0, rand_seed=5).architecture_mutate(agent)
+                # the public entry point: Mutations.mutation() applies the mutation AND re-creates the shared (target) networks
+                agent = Mutations(0, 1, 0.5, 0, 0, 0, rand_seed=5).mutation([agent])[0]
             elif self.variant == "checkpoint":
                 # directly after a checkpoint round-trip into the same agent
                 import os
